@@ -28,11 +28,16 @@ def cz(v, model, universe=None):
     if isinstance(v, VStr):
         r = _ev(model, v.e)
         return r.as_string() if z3.is_string_value(r) else str(r)
+    if isinstance(v, VPath):
+        r = _ev(model, v.e)
+        return {"$path": r.as_string() if z3.is_string_value(r) else str(r)}
     if isinstance(v, VNone):
         return None
     if type(v).__name__ == "VDyn":
         from .dyn import concretize
         return concretize(v, model)
+    if isinstance(v, VNaN):
+        return {"$float": "nan"}
     if isinstance(v, VUn):
         return {"$un": str(_ev(model, v.e))}
     if isinstance(v, VOpt):
@@ -65,8 +70,13 @@ def cz(v, model, universe=None):
         return d
     if isinstance(v, VObj):
         return {"$obj": getattr(v.cls, "name", str(v.cls)), "fields": {k: cz(x, model) for k, x in v.fields.items()}}
+    if isinstance(v, VDRec):
+        return {"$dict": {fn: cz(v.field(fn), model) for fn in v.t.fields if z3.is_true(_ev(model, v.has(fn)))}}
     if isinstance(v, VDictRec):
         return {"$dict": {k: cz(x, model) for k, x in v.fields.items()}}
+    if type(v).__name__ in ("VJDict", "VJSet", "VJList", "VWStr"):
+        from . import jsontree
+        return jsontree.concretize(v, model, cz)
     if isinstance(v, VOptObj):
         return {"$present": z3.is_true(_ev(model, v.present))}
     if isinstance(v, VFunc):
